@@ -83,6 +83,14 @@ func c08One(c *core.Ctx, cs srcCase) {
 		return
 	}
 	c.Stat("layouts_compared", 1)
+	if cs.Aux == "kinds" {
+		// a whole-file change of the line terminator also changes the text inside strings, heredocs and inline
+		// HTML: the values differ legitimately, the node kinds and nesting must not
+		if a, b := kindSkeleton(base.Root), kindSkeleton(res.Root); a != b {
+			c.Report("node kinds change when every LF of the file becomes "+kind, mkWhat("%q vs %q: %s vs %s", cs.Base, cs.Src, clipS(a, 160), clipS(b, 160)), cs)
+		}
+		return
+	}
 	if astx.StructFP(res.Root) != astx.StructFP(base.Root) {
 		l, w := astx.Diff(base.Root, res.Root, false)
 		c.Report("structure changes with trivia "+kind+": "+l, mkWhat("%s: %q vs %q", w, cs.Base, cs.Src), cs)
@@ -133,6 +141,21 @@ func c08Run(c *core.Ctx) {
 			})
 		}
 	}
+	// whole-file line-terminator conversion of every special and of the heredoc shapes
+	for _, src := range append(corpus.Specials(), c09Heredocs()...) {
+		if !strings.Contains(src, "\n") || strings.Contains(src, "\r") {
+			continue
+		}
+		for _, v := range []string{"7.4", "7.2", "5.6"} {
+			if !c.Next() {
+				continue
+			}
+			cs := mkCase(strings.Replace(src, "\n", "\r\n", -1), parseVer(v), "whole file trivia=CRLF")
+			cs.Base = []byte(src)
+			cs.Aux = "kinds"
+			c08One(c, cs)
+		}
+	}
 	// hand-written pairs: layouts of the specials that differ only in trivia
 	for _, p := range c08Pairs {
 		for _, v := range []string{"7.4", "5.6"} {
@@ -174,6 +197,9 @@ var c08Pairs = [][3]string{
 	{"<?php A::class;", "<?php A::/*c*/class;", "comment before ::class"},
 	{"<?php a\\b;", "<?php a \\ b;", "blanks inside name"},
 	{"<?php namespace\\a;", "<?php namespace \\ a;", "blanks inside relative name"},
+	{"<?php $a = <<<A\nx\nA;\n$b;", "<?php $a = <<<A\nx\nA;\r\n$b;", "CRLF after the semicolon that follows a heredoc closer"},
+	{"<?php $a = <<<'A'\nx\nA;\n$b;", "<?php $a = <<<'A'\nx\nA;\r\n$b;", "CRLF after the semicolon that follows a nowdoc closer"},
+	{"<?php $a = <<<A\nx\nA\n;", "<?php $a = <<<A\nx\nA\r\n;", "CRLF after a heredoc closer"},
 	{"<?php $a = <<<A\nx\nA;\n", "<?php $a = <<<A\nx\nA\n;\n", "newline after heredoc closer"},
 	{"<?php $a = <<<A\nx\nA;\n", "<?php $a = <<< A\nx\nA;\n", "blank inside heredoc opener"},
 	{"<?php $a = <<<A\nx\nA;\n", "<?php $a =/*c*/<<<A\nx\nA;\n", "comment before heredoc"},
@@ -203,7 +229,7 @@ var c08Pairs = [][3]string{
 func init() {
 	register(&core.Check{
 		Prop: "C08", Level: "exploration", Exhaust: true, QuickSecs: 400, ThorSecs: 3000,
-		Rule: "every valid program of the E-lr corpora of both grammars (rules, 2-paths; thorough: nullable combinations, 3-paths, pairs of positions): baseline layout (one blank per gap) versus a unique comment in every gap, every single gap set to each of 18 trivia (deletion where the neighbours stay separate tokens, blanks, tab, LF, CRLF, lone CR, block/doc/one-line/hash comments with each terminator, mixes), six whole-program layouts, thorough: pairs of neighbouring gaps; plus 49 hand-written pairs for the places where PHP's lexical grammar is delicate (close tag, halt compiler, casts, yield from, ->, names, heredoc, ternary, labels). " +
+		Rule: "every valid program of the E-lr corpora of both grammars (rules, 2-paths; thorough: nullable combinations, 3-paths, pairs of positions): baseline layout (one blank per gap) versus a unique comment in every gap, every single gap set to each of 18 trivia (deletion where the neighbours stay separate tokens, blanks, tab, LF, CRLF, lone CR, block/doc/one-line/hash comments with each terminator, mixes), six whole-program layouts, thorough: pairs of neighbouring gaps; plus every special and 2496 heredoc shapes with every LF turned into CRLF (node kinds must not change), plus 52 hand-written pairs for the places where PHP's lexical grammar is delicate (close tag, halt compiler, casts, yield from, ->, names, heredoc, ternary, labels). " +
 			"Oracle: the deviated layout parses without errors and its structural fingerprint (kinds, nesting, roles, values — no tokens, no positions) equals the baseline's. non-trivial = deviated program parsed; distinct by (version, source)",
 		Assume: []string{"gaps where PHP restricts trivia (inside a cast, yield…from, heredoc opener/closer lines, after the open tag) only get the trivia PHP allows there (mc/corpus.Allowed)"},
 		Run:    c08Run,
